@@ -51,3 +51,31 @@ fn d7_icmpv6_code_nonzero() {
     let ev = EVENTS.lock().unwrap().clone();
     assert_eq!(ev, vec!["icmpv6_recv", "icmpv6_drop"], "events: {:?}", ev);
 }
+
+pub fn udp4_frame(sport: u16, dport: u16, payload: &[u8]) -> Vec<u8> {
+    let mut f = vec![0xc0,0xff,0xee,0xc0,0xff,0xee, 2,2,2,2,2,2, 0x08,0x00];
+    let tl = (20 + 8 + payload.len()) as u16;
+    let mut ip = vec![0x45,0, (tl>>8) as u8, tl as u8, 0,0, 0x40,0, 64, 17, 0,0, 10,0,0,2, 10,0,0,1];
+    let ul = (8 + payload.len()) as u16;
+    ip.extend_from_slice(&[(sport>>8) as u8, sport as u8, (dport>>8) as u8, dport as u8, (ul>>8) as u8, ul as u8, 0, 0]);
+    ip.extend_from_slice(payload);
+    f.extend(ip);
+    f
+}
+#[test]
+fn d11_stun_two_change_requests() {
+    let m = mk(None);
+    // binding request, length 0x0104, magic cookie, id, two CHANGE-REQUEST(change-port) + one 240-byte generic attribute
+    let mut p = vec![0x00,0x01, 0x01,0x04, 0x21,0x12,0xa4,0x42];
+    p.extend_from_slice(&[7u8;12]);
+    p.extend_from_slice(&[0,3, 0,4, 0,0,0,2]);
+    p.extend_from_slice(&[0,3, 0,4, 0,0,0,2]);
+    p.extend_from_slice(&[0x80,0x22, 0,240]);
+    p.extend_from_slice(&[b'x';240]);
+    assert_eq!(p.len(), 20 + 0x104);
+    let f = udp4_frame(40000, 3478, &p);
+    let r = reply(&f, &m).expect("no reply");
+    let b = r.packet();
+    let src_port = ((b[34] as u16) << 8) | b[35] as u16;
+    assert_eq!(src_port, 3479, "reply source port {}", src_port);
+}
